@@ -140,7 +140,7 @@ def run_case(case, drv):
             else:
                 tk = MU.Toks(groups[0])
                 mdec = tk.lst(lambda: tk.lst(lambda: (tk.nat(), Fraction(tk.tok()))))
-                if mdec != dec:
+                if sorted(mdec) != sorted(dec):      # the order in which the routes are listed is not part of the property
                     res.disagree("decode", dec, mdec)
     res.nontrivial = n >= 3 and nf >= 1 and nf < len(B.X)
     res.features += ["exhaustive:True", f"feasible_vectors:{min(nf, 5)}"]
